@@ -474,3 +474,13 @@ def run(facts, rep, ctx):
     round4.or2(facts, rep)
     round4.ri7(facts, rep)
 
+
+
+_run_before_round6 = run
+
+
+def run(facts, rep, ctx):
+    """rules added after the fifth seeding round (rules/round6.py)"""
+    _run_before_round6(facts, rep, ctx)
+    from . import round6
+    round6.ef10(facts, rep)
